@@ -82,7 +82,8 @@ def init_mesh_args(run):
                  "new:length2mesh": lambda ex, st, args, kwargs: tuple(z3.Int("len_mesh_%d" % i) for i in range(3))}
         ex = PyExec(mod, run.sink, pref, hooks=hooks, opaque_unknown=True, split=True)
         st = PState()
-        sym = st.new(Record("Symmetry", {"pointgroup_operations": Opaque("point group")}))
+        pg = Opaque("point-group operations of the primitive cell")
+        sym = st.new(Record("Symmetry", {"pointgroup_operations": pg}))
         prim = st.new(Record("Primitive", {"cell": Opaque("cell")}))
         self_ref = st.new(Record("Phonopy", {"_dynamical_matrix": Opaque("dm"), "_primitive_symmetry": sym, "_primitive": prim,
                                              "_group_velocity": Opaque("gv"), "_factor": z3.Real("factor"), "_mesh": None}))
@@ -109,12 +110,46 @@ def init_mesh_args(run):
             ob = run.sink.add(pref, "equiv", hy, goal, meta={"label": "IterMesh and Mesh receive the same '%s'" % k})
             ob.meta["witness"] = {"is_gamma_center": z3.If(z3.Bool("is_gamma_center"), z3.IntVal(1), z3.IntVal(0))}
             ob.replay = replay_init_mesh
+        for cname in ("Mesh", "IterMesh"):
+            got = captured[cname][1].get("rotations")
+            run.sink.add(pref, "call-pre", list(captured[cname][2]), z3.BoolVal(got is pg), replay=replay_init_mesh_rotations, meta={
+                "label": "%s samples the primitive cell's reciprocal mesh, so it receives the primitive cell's point-group operations, unchanged (got %r)" % (cname, got)})
         for idx, (a, b) in enumerate(zip(ia, ma)):
             same = (a is b) or (isinstance(a, tuple) and isinstance(b, tuple) and all((x is y) or (pyexec.is_sym(x) and x.eq(y)) for x, y in zip(a, b)))
             run.sink.add(pref, "equiv", hy, z3.BoolVal(bool(same)), meta={"label": "IterMesh and Mesh receive the same positional argument %d" % idx})
         run.functions.append({"file": AF, "function": "Phonopy.init_mesh[%s]" % scen, "line": m.lineno, "sha1": mod.sha(m),
                               "obligations": len(run.sink.obls) - n0})
         run.abstracted += sorted(set(ex.abstracted))[:20]
+
+
+def replay_init_mesh_rotations(model):
+    """real Phonopy.init_mesh, constructors intercepted: which rotations does each mesh class get?"""
+    from pvc import creplay
+    import json
+    code = '''
+import json, numpy as np
+import phonopy.api_phonopy as api
+got = {}
+class FakeMesh:
+    def __init__(self, *a, **k): got["Mesh"] = k.get("rotations")
+class FakeIter:
+    def __init__(self, *a, **k): got["IterMesh"] = k.get("rotations")
+api.Mesh, api.IterMesh = FakeMesh, FakeIter
+class Sym:
+    def __init__(self, tag): self.pointgroup_operations = np.eye(3, dtype=int)[None] * tag
+class Prim: cell = np.eye(3)
+ph = api.Phonopy.__new__(api.Phonopy)
+ph._dynamical_matrix = object(); ph._primitive_symmetry = Sym(1); ph._symmetry = Sym(2); ph._primitive = Prim(); ph._group_velocity = None; ph._factor = 1.0
+ph.init_mesh(mesh=[4, 4, 4], use_iter_mesh=False)
+ph.init_mesh(mesh=[4, 4, 4], use_iter_mesh=True)
+print(json.dumps({k: bool(v is ph._primitive_symmetry.pointgroup_operations) for k, v in got.items()}))
+'''
+    rc, out, err = creplay.py_eval(code)
+    if rc != 0:
+        return {"reproduced": False, "reason": err[-400:]}
+    r = json.loads(out.strip().splitlines()[-1])
+    return {"reproduced": not all(r.values()), "real_code": {"receives_primitive_point_group": r},
+            "expected": "Mesh and IterMesh receive Phonopy._primitive_symmetry.pointgroup_operations"}
 
 
 def replay_init_mesh(model):
